@@ -2,8 +2,8 @@ SPECIFICATION MCSpec
 CONSTANTS
   Actors = {"rx", "s1", "s2"}
   Rx = "rx"
-  Victims = {}
-  Prog <- Pa
+  Victims = {"rx"}
+  Prog <- Pc
   Dur = 1
   RepopOnDisc = TRUE
 INVARIANTS DeliveredOnce NoInvented PerSenderOrder DrainThenDisconnected NothingLost
